@@ -4,3 +4,5 @@ import LettreVerif.Props.C19
 #print axioms LV.C19.relaxed_headers_no_growth
 #print axioms LV.C19.base64_length
 #print axioms LV.C19.base64_body_linear
+#print axioms LV.C19.xtext_at_most_triples
+#print axioms LV.C19.data_phase_linear
